@@ -342,10 +342,39 @@ theorem fused_matmul_missing_perm_raises :
     fmm { kind := "t1", rank := 3, inner := some FAttrs.empty, perm := none, cstConst := true, cstShape := [],
           cst := 2.0 } = "EXC" := by decide
 
+/-- … and with the repair (`attributes.get_ints("perm")`) the same graph is simply left unchanged. -/
+theorem fused_matmul_missing_perm_repaired :
+    fmm { kind := "t1", rank := 3, inner := some FAttrs.empty, perm := none, cstConst := true, cstShape := [],
+          cst := 2.0, fix5 := true } = "count=0" := by decide
+
+/-- With the rank ≥ 3 repair the rank-2 identity permutation no longer fires the batch rule (C19-F4). -/
+theorem flipped_batch_rank2_repaired :
+    fmm { kind := "t1", rank := 2, inner := some FAttrs.empty, perm := some [0, 1], cstConst := true,
+          cstShape := [], cst := 2.0, fix4 := true } = "count=0" := by decide
+
 /-- `Div(MatMul(x,y), [[c]])`: one element, rank 2 — the rewrite raises (finding C19-F9). -/
 theorem fused_matmul_div_rank2_divisor_raises :
     fmm { kind := "div", rank := 3, inner := none, perm := none, cstConst := true, cstShape := [1, 1],
           cst := 0.5 } = "EXC" := by decide
+
+/-- … and with the repair (divisor of rank ≤ 1 only) it is left unchanged. -/
+theorem fused_matmul_div_rank2_divisor_repaired :
+    fmm { kind := "div", rank := 3, inner := none, perm := none, cstConst := true, cstShape := [1, 1],
+          cst := 0.5, fix9 := true } = "count=0" := by decide
+
+/-- **The repaired `MatMulTranspose.rewrite` emits the flags `fused_matmul_transposes` asks for**: for an inner
+`(transA, transB) = (a, b)` the swapped operands get `(1-b, 1-a)`; the rule as first found emits `(1-a, 1-b)`,
+which agrees only when `a = b`. -/
+theorem mt_flags (a b : Int) :
+    mtFlags true a b = (1 - b, 1 - a) ∧ mtFlags false a b = (1 - a, 1 - b)
+    ∧ (mtFlags false a b = mtFlags true a b ↔ a = b) := by
+  refine ⟨rfl, rfl, ?_⟩
+  have e1 : mtFlags false a b = (1 - a, 1 - b) := rfl
+  have e2 : mtFlags true a b = (1 - b, 1 - a) := rfl
+  rw [e1, e2, Prod.mk.injEq]
+  constructor
+  · intro h; omega
+  · intro h; omega
 
 /-! ## Rotary embedding -/
 
@@ -439,8 +468,36 @@ theorem softmax_axis (dt up down : Nat) (ax : Option Int) :
 /-- `bias_gelu.py` checks the rank of the bias only: a length-1 bias next to a last dimension of 8 is accepted
 (finding C19-F1: the fused `BiasGelu` is rejected by onnxruntime). -/
 theorem bias_gelu_check_insufficient :
-    biasGelu false (some [.int 2, .int 8]) (some [.int 1]) = "count=1 BiasGelu@com.microsoft{}(a,b)->1" := by
+    biasGelu false false (some [.int 2, .int 8]) (some [.int 1]) = "count=1 BiasGelu@com.microsoft{}(a,b)->1" := by
   decide
+
+/-- **The repaired `BiasGeluFusion.check` is sufficient for what `BiasGelu` demands**: whenever it accepts
+`(input, bias)`, the bias is 1-D of a static length `n` and the input's shape is known, non-scalar, with last
+dimension exactly `n` — for every shape, symbolic or not. -/
+theorem bias_gelu_repaired_check_sound (input bias : Option Shape) (h : biasOk true input bias = true) :
+    ∃ n ish, bias = some [.int n] ∧ input = some ish ∧ ish.getLast? = some (.int n) := by
+  unfold biasOk at h
+  simp only [Bool.not_true, Bool.false_or, Bool.and_eq_true] at h
+  obtain ⟨_, h2⟩ := h
+  cases input with
+  | none => cases bias <;> simp at h2
+  | some ish =>
+    cases bias with
+    | none => simp at h2
+    | some bs =>
+      match bs, h2 with
+      | [.int n], h2 =>
+        refine ⟨n, ish, rfl, rfl, ?_⟩
+        cases hl : ish.getLast? with
+        | none => simp [hl] at h2
+        | some d =>
+          cases d with
+          | int m => simp [hl] at h2; rw [h2]
+          | sym _ => simp [hl] at h2
+          | unk => simp [hl] at h2
+
+example : biasOk true (some [.int 2, .int 8]) (some [.int 8]) = true := by decide
+example : biasGelu true false (some [.int 2, .int 8]) (some [.int 1]) = "count=0" := by decide
 
 /-- `RmsNormFusion` with `Mul(scale_cast, normalized)`: the `scale` variable is bound to the value *before*
 its `Cast` (dtype float16 = 10) while the product is computed in float (1); the fused operator's output type
